@@ -159,7 +159,7 @@ type world struct {
 	last    map[string]kind   // last track/untrack instruction per CID label
 	tol     map[string]bool   // an unpin call for the CID failed at the daemon since that instruction
 	atLast  map[string]string // what the daemon held for the CID when that instruction was issued
-	recEver map[string]bool   // a recover(c)/recoverAll instruction was issued for the CID on this path
+	recEver map[string]bool   // a recover(c)/recoverAll instruction was issued while the recorded pin of the CID was this direct-mode pin
 	pending []*issued
 	nInstr  int
 	// operations created or modified by the last recoverAll instruction
@@ -238,7 +238,13 @@ func (w *world) issue(in instr) {
 		}
 		w.last[in.C] = in.K
 		w.tol[in.C] = false
-		w.atLast[in.C] = daemonName(w.model.Get(cidOf[in.C]))
+		w.atLast[in.C] = ""
+		if in.K == kLD {
+			w.atLast[in.C] = "not-recursive"
+			if w.model.Get(cidOf[in.C]) == api.IPFSPinStatusRecursive {
+				w.atLast[in.C] = "recursive"
+			}
+		}
 		is.guard(func() error { return w.tr.Track(w.ctx, pin) })
 	case in.K == kUN:
 		if err := w.st.Rm(w.ctx, cidOf[in.C]); err != nil {
@@ -246,14 +252,19 @@ func (w *world) issue(in instr) {
 		}
 		w.last[in.C] = kUN
 		w.tol[in.C] = false
-		w.atLast[in.C] = daemonName(w.model.Get(cidOf[in.C]))
+		w.atLast[in.C] = ""
+		w.recEver[in.C] = false
 		is.guard(func() error { return w.tr.Untrack(w.ctx, cidOf[in.C]) })
 	case in.K == kRC:
-		w.recEver[in.C] = true
+		if w.last[in.C] == kLD {
+			w.recEver[in.C] = true
+		}
 		is.guard(func() error { _, err := w.tr.Recover(w.ctx, cidOf[in.C]); return err })
 	case in.K == kRA:
 		for _, l := range w.cfg.Cids {
-			w.recEver[l] = true
+			if w.last[l] == kLD {
+				w.recEver[l] = true
+			}
 		}
 		is.guard(func() error { _, err := w.tr.RecoverAll(w.ctx); return err })
 	}
@@ -343,31 +354,36 @@ func panicSite(s string) string {
 	return "unknown"
 }
 
-// parked lists the held daemon calls by CID label, sorted by label. At a
-// quiescent point at most one call per CID is held: a newer operation on the
-// same CID cancels the older one's context and the model drops a cancelled call.
-func (w *world) parked() (labels []string, calls map[string]*clus.Call) {
+// parked lists the held daemon calls under stable names, sorted: the CID label,
+// with "#n" appended for the n-th simultaneous call on the same CID (in arrival
+// order). On the unchanged code at most one call per CID is ever held at a
+// quiescent point (a newer operation on the same CID cancels the older one's
+// context and the model drops a cancelled call); the naming does not rely on it.
+func (w *world) parked() (names []string, calls map[string]*clus.Call) {
 	calls = map[string]*clus.Call{}
+	n := map[string]int{}
 	for _, c := range w.model.Parked() {
 		l := labelOf[c.Cid]
-		if _, dup := calls[l]; dup {
-			panic("two parked calls for one CID: harness invariant broken")
+		n[l]++
+		name := l
+		if n[l] > 1 {
+			name = fmt.Sprintf("%s#%d", l, n[l])
 		}
-		calls[l] = c
-		labels = append(labels, l)
+		calls[name] = c
+		names = append(names, name)
 	}
-	sort.Strings(labels)
+	sort.Strings(names)
 	return
 }
 
-func (w *world) complete(l string, act clus.Action) {
+func (w *world) complete(name string, act clus.Action) {
 	_, calls := w.parked()
-	c := calls[l]
+	c := calls[name]
 	if c == nil {
-		panic("complete: no parked call for " + l)
+		panic("complete: no parked call named " + name)
 	}
 	if act == clus.Fail && c.Kind == "unpin" {
-		w.tol[l] = true
+		w.tol[labelOf[c.Cid]] = true
 	}
 	w.model.Complete(c, act)
 	synctest.Wait()
@@ -451,7 +467,15 @@ func (w *world) canon() string {
 				b.WriteString("/x")
 			}
 		}
-		if c, ok := calls[l]; ok {
+		for i := 1; ; i++ {
+			name := l
+			if i > 1 {
+				name = fmt.Sprintf("%s#%d", l, i)
+			}
+			c, ok := calls[name]
+			if !ok {
+				break
+			}
 			fmt.Fprintf(&b, " call=%s", c.Kind)
 			if c.Pin != nil {
 				fmt.Fprintf(&b, "/%s", depthName(c.Pin.MaxDepth))
@@ -460,8 +484,8 @@ func (w *world) canon() string {
 		if w.tol[l] {
 			b.WriteString(" unpin-failed")
 		}
-		if w.last[l] != kNo {
-			fmt.Fprintf(&b, " had=%s", w.atLast[l])
+		if w.atLast[l] == "recursive" {
+			b.WriteString(" had-recursive")
 		}
 		if w.recEver[l] {
 			b.WriteString(" rec")
@@ -590,7 +614,9 @@ func (w *world) clause2() []cidObs {
 		select {
 		case <-is.done:
 		default:
-			panic("RecoverAll blocked with a healthy daemon")
+			w.addFinding("C05|hang|recoverAll|never-returns-with-healthy-daemon", map[string]interface{}{
+				"expected": "RecoverAll returns when the daemon answers every call at once"})
+			return nil
 		}
 		if is.pan != "" {
 			w.addFinding("C05|panic|recoverAll|"+panicSite(is.pan), map[string]interface{}{"panic": is.pan})
@@ -624,8 +650,12 @@ func (w *world) clause2() []cidObs {
 			o.Verdict = "match"
 		default:
 			o.Verdict = "VIOLATION"
-			w.addFinding(fmt.Sprintf("C05|clause2|daemon-mismatch|last=%s|daemon-at-instruction=%s|recover-issued-on-path=%v|daemon-before-recover-round=%s|daemon-after=%s", o.Last, w.atLast[l], w.recEver[l], before[l], o.Daemon),
-				map[string]interface{}{"cid": l, "observed": o, "daemon_when_last_instruction_was_issued": w.atLast[l], "recover_instruction_issued_on_path": w.recEver[l], "daemon_before_recover_round": before[l], "recover_rounds": rounds,
+			key := fmt.Sprintf("C05|clause2|daemon-mismatch|last=%s|daemon-before-recover-round=%s|daemon-after=%s", o.Last, before[l], o.Daemon)
+			if w.last[l] == kLD {
+				key = fmt.Sprintf("C05|clause2|daemon-mismatch|last=%s|daemon-at-instruction=%s|recovered-while-direct=%v|daemon-before-recover-round=%s|daemon-after=%s", o.Last, w.atLast[l], w.recEver[l], before[l], o.Daemon)
+			}
+			w.addFinding(key,
+				map[string]interface{}{"cid": l, "observed": o, "daemon_when_last_instruction_was_issued": w.atLast[l], "recover_instruction_issued_while_recorded_pin_direct": w.recEver[l], "daemon_before_recover_round": before[l], "recover_rounds": rounds,
 					"expected": "after a recover round with IPFS healthy the daemon matches the last instruction"})
 		}
 		if k := w.last[l]; k == kLR || k == kLD || k == kEV {
